@@ -90,7 +90,7 @@ func Verif_C08_wellformed_prefix_processed() {
 	body := verifBuf("update", 0, 64)
 	kind := verifChoose("fault", 3)
 	conn := newSymConn("c", nil, 1)
-	conn.addFrame(updateMessageType, body)
+	conn.addFrame(verifMsgUpdate, body)
 	var typ byte
 	switch kind {
 	case 0:
@@ -185,13 +185,13 @@ func Verif_C08_notification_verbatim_with_concurrent_writer() {
 	nNotif, nUpd := 0, 0
 	for _, fr := range frames {
 		switch fr.typ {
-		case notificationMessageType:
+		case verifMsgNotification:
 			nNotif++
 			verifAssert("notification-verbatim", len(fr.body) == 3 && fr.body[0] == NOTIF_CODE_MESSAGE_HEADER_ERR && fr.body[1] == NOTIF_SUBCODE_BAD_MESSAGE_TYPE && fr.body[2] == 7)
-		case updateMessageType:
+		case verifMsgUpdate:
 			nUpd++
 			verifAssert("update-verbatim", c04SameBytes(fr.body, body))
-		case keepAliveMessageType:
+		case verifMsgKeepalive:
 			verifAssert("keepalive-empty", len(fr.body) == 0)
 		default:
 			verifAssert("no-other-frame-type", false)
